@@ -44,6 +44,8 @@ def main():
     timer.start()
     try:
         mod.run(chk)
+        import findings_corpus
+        findings_corpus.replay(chk)
     except Exception:  # the harness itself broke: report as a broken tie, never silently pass
         tb = traceback.format_exc()
         print(tb, file=sys.stderr)
